@@ -581,8 +581,85 @@ def run_same_names(w) -> None:
         loaded.unload()
 
 
+GETATTR_SOURCE = '''
+import icontract
+
+
+{decos}
+class Account{base}:
+    def __init__(self):
+        self.x = 10
+        self.limit = 100
+
+    def __getattr__(self, name):
+        """Looked up for the attributes the instance does not have: `spend_<n>` and `raise_<n>` change the state."""
+        if name.startswith("spend_"):
+            self.__dict__["x"] -= int(name[len("spend_"):])
+            return self.__dict__["x"]
+        if name.startswith("raise_"):
+            self.__dict__["limit"] -= int(name[len("raise_"):])
+            return self.__dict__["limit"]
+        raise AttributeError(name)
+
+
+class Derived(Account):
+    """Inherits __getattr__."""
+'''
+
+
+def run_getattr(w) -> None:
+    """`__getattr__` is a special method defined in Python like any other: a look-up of a missing attribute is a CALL, judged by the
+    listed invariants of that event."""
+    import icontract  # pylint: disable=import-outside-toplevel
+
+    call_inv = "@icontract.invariant(lambda self: self.__dict__['x'] >= 0)"
+    set_inv = "@icontract.invariant(lambda self: self.__dict__['limit'] >= 50, check_on=icontract.InvariantCheckEvent.SETATTR)"
+    all_inv = "@icontract.invariant(lambda self: self.__dict__['limit'] >= 0, check_on=icontract.InvariantCheckEvent.ALL)"
+    for dbc in (False, True):
+        for tag, decos in (("call-only", call_inv), ("call-and-setattr", set_inv + "\n" + call_inv), ("setattr-then-call", call_inv + "\n" + set_inv),
+                           ("call-and-all", all_inv + "\n" + call_inv)):
+            loaded = prog.load_source(GETATTR_SOURCE.format(decos=decos, base="(icontract.DBC)" if dbc else ""), w.scratch())
+            mod = loaded.module
+            try:
+                for cname in ("Account", "Derived"):
+                    if cname == "Derived" and not dbc:
+                        continue
+                    cls_obj = getattr(mod, cname)
+                    listed = [c for c in cls_obj.__invariants__ if icontract.InvariantCheckEvent.CALL in c.check_on]
+                    for attr in ("spend_5", "spend_11", "raise_60", "raise_200"):
+                        # by hand: the state after the look-up, judged by the listed invariants of the event
+                        twin = cls_obj()
+                        try:
+                            twin.__dict__["x"], twin.__dict__["limit"] = 10, 100
+                            if attr.startswith("spend_"):
+                                twin.__dict__["x"] -= int(attr[6:])
+                            else:
+                                twin.__dict__["limit"] -= int(attr[6:])
+                            manual = "ok" if all(c.condition(self=twin) for c in listed) else "violation"
+                        except BaseException as err:  # pylint: disable=broad-except
+                            manual = "error " + type(err).__name__
+                        inst = cls_obj()
+                        try:
+                            getattr(inst, attr)
+                            real = "ok"
+                        except icontract.ViolationError:
+                            real = "violation"
+                        except BaseException as err:  # pylint: disable=broad-except
+                            real = "raised " + type(err).__name__
+                        w.count("manual_vs_real_calls")
+                        w.count("getattr_lookups_judged")
+                        w.case(("getattr", tag, dbc, cname, attr))
+                        if manual != real:
+                            w.violation("C18/manual-invariant-evaluation-disagrees", "{}{} [{}].{} (a look-up through __getattr__): by hand {} vs the real "
+                                        "look-up {}".format(cname, " on DBC" if dbc else "", tag, attr, manual, real), {"getattr": tag, "dbc": dbc})
+            finally:
+                loaded.unload()
+
+
 def run(w) -> None:
     install_hook()
+    if w.shard == 2 % w.nshards:
+        run_getattr(w)
     if w.shard == 1 % w.nshards:
         run_same_names(w)
     for meta, spec in c04.specs(w):
@@ -595,6 +672,9 @@ def run(w) -> None:
 
 def replay(case, w) -> None:
     install_hook()
+    if "getattr" in case:
+        run_getattr(w)
+        return
     if "post_hoc" in case:
         run_post_hoc(w)
         return
